@@ -199,7 +199,17 @@ func init() {
 			var rng *ast.RangeStmt
 			for _, b := range fc.G.Blocks {
 				if rs, ok := b.Stmt.(*ast.RangeStmt); ok && b.Kind == cfg.KindRangeLoop && fc.Live(b) && FieldOfSelector(info, rs.X) == ext {
-					loop, rng = b, rs
+					// the binding loop: the one whose body stores (a look-up-only
+					// loop in front of it is PKG.use-atomic's business)
+					binds := false
+					for _, ce := range callsIn(rs.Body, false) {
+						if originOf(Callee(info, ce)) == pput {
+							binds = true
+						}
+					}
+					if binds || loop == nil {
+						loop, rng = b, rs
+					}
 				}
 			}
 			if loop == nil {
@@ -720,6 +730,61 @@ func init() {
 						} else {
 							obs = append(obs, mkOb(c, rid, u, construct, ce, Violated, "a body form is evaluated on a path where no restore of Runtime.Package has been registered (the restore is conditional on the callee's package differing from the current one): a callee defined in the current package that runs in-package leaves its caller's remaining body — defined in another package — running in the package it switched to, and the switch survives to top level", true))
 						}
+					}
+				}
+			}
+			return obs
+		}})
+}
+
+// PKG.use-atomic — C08: "use-package copies EXACTLY the exported bindings of
+// the named package".  When one exported name has no binding use-package
+// reports an error; by then it must not have copied the names that sort
+// before it, or the using package is left with a strict, arbitrary subset.
+func init() {
+	register(&Rule{ID: "PKG.use-atomic", Floor: 1,
+		Doc: "in UsePackage no error return is reachable after a Package.Put: every exported name is looked up before the first one is bound, so a failing use-package binds nothing",
+		Run: func(c *Ctx) []Obligation {
+			const rid = "PKG.use-atomic"
+			fn, fd, pkg := c.LookupFunc("lisp.(*LEnv).UsePackage")
+			pput := c.LookupMethod("lisp.Package.Put")
+			if fn == nil || pput == nil {
+				return []Obligation{anchorMissing(rid, "UsePackage / Package.Put")}
+			}
+			u := FuncUnit{fn, fd, pkg}
+			info := pkg.TypesInfo
+			fc := c.cfgOf(u, nil)
+			puts := fc.blocksWith(func(n ast.Node) bool { return nodeCalls(info, n, pput) != nil })
+			var obs []Obligation
+			ord := &ordinal{}
+			for _, b := range fc.G.Blocks {
+				if !fc.Live(b) {
+					continue
+				}
+				for _, n := range b.Nodes {
+					rs, ok := n.(*ast.ReturnStmt)
+					if !ok || len(rs.Results) != 1 {
+						continue
+					}
+					ce, ok := ast.Unparen(rs.Results[0]).(*ast.CallExpr)
+					if !ok {
+						continue
+					}
+					f := Callee(info, ce)
+					if f == nil || !strings.HasSuffix(f.Name(), "Errorf") {
+						continue
+					}
+					construct := ord.next("error return")
+					after := false
+					for pb := range puts {
+						if pb == b || fc.reachableFromAvoiding(pb, b, nil) {
+							after = true
+						}
+					}
+					if after {
+						obs = append(obs, mkOb(c, rid, u, construct, rs, Violated, "this error can be returned after some exported names have already been bound in the using package: (export 'aa 'mm 'zz) with mm never defined makes (use-package 'a) fail AND leaves aa imported but not zz", true))
+					} else {
+						obs = append(obs, mkOb(c, rid, u, construct, rs, Proved, "not reachable from a Package.Put", true))
 					}
 				}
 			}
